@@ -109,7 +109,8 @@ def q2_typecheck(f):
             # print(f"Checking that param ({param}) was {param.annotation}, value: {args[i]}")
             # FIXME: Won't check keyword arguments
             if (
-                param.annotation in [list, str, int, float]
+                i < len(args)  # too few arguments are reported by the call itself
+                and param.annotation in [list, str, int, float]
                 and param.default == param.empty
             ):
                 _verify_variable_is_type(args[i], param.annotation)
